@@ -508,97 +508,7 @@ func helperScopeRule(r *Run, rule string) {
 		r.Lost(rule, "PartialHelper")
 	}
 	// contentOf / contentFor
-	for _, name := range []string{"ContentOf", "ContentFor"} {
-		f := w.Func("helpers/content", name)
-		if f == nil {
-			r.Lost(rule, "helpers/content."+name)
-			continue
-		}
-		info := f.Pkg.TypesInfo
-		sig := f.Obj.Type().(*types.Signature)
-		var helpP *types.Var
-		for i := 0; i < sig.Params().Len(); i++ {
-			if namedIs(sig.Params().At(i).Type(), hctxPath, "HelperContext") {
-				helpP = sig.Params().At(i)
-			}
-		}
-		// every BlockWith call: argument is a local defined by help.New() in the SAME function literal / body,
-		// and the data range sets on that local
-		nBW := 0
-		for _, c := range callsIn(f.Decl.Body, false) {
-			cal := calleeOf(info, c)
-			if cal == nil || cal.Name() != "BlockWith" || len(c.Args) != 1 {
-				continue
-			}
-			nBW++
-			child := objOf(info, c.Args[0])
-			encl := enclosingFuncBody(w, c)
-			var def *ast.AssignStmt
-			inspectBody(encl, true, func(n ast.Node) bool {
-				as, ok := n.(*ast.AssignStmt)
-				if !ok || len(as.Lhs) != 1 || len(as.Rhs) != 1 || objOf(info, as.Lhs[0]) != child {
-					return true
-				}
-				if cc, ok := as.Rhs[0].(*ast.CallExpr); ok {
-					if sel, ok := unparen(cc.Fun).(*ast.SelectorExpr); ok && objOf(info, sel.X) == helpP {
-						if cl := calleeOf(info, cc); cl != nil && cl.Name() == "New" {
-							def = as
-						}
-					}
-				}
-				return true
-			})
-			con := "BlockWith(" + short(w.Fset, c.Args[0]) + ")"
-			if child == nil || def == nil || def.Pos() > c.Pos() {
-				r.Bad(rule, f.Name(), con, w.Pos(c.Pos()),
-					"the block must run in a child scope created by help.New() for THIS call (in the same function body as the BlockWith call), so that data and inner bindings do not carry over")
-				continue
-			}
-			// data → child
-			okData := false
-			inspectBody(encl, true, func(n ast.Node) bool {
-				rs, ok := n.(*ast.RangeStmt)
-				if !ok || rs.Pos() < def.Pos() || rs.Pos() > c.Pos() {
-					return true
-				}
-				for _, sc := range callsIn(rs.Body, true) {
-					if cl := calleeOf(info, sc); cl != nil && cl.Name() == "Set" {
-						if sel, ok := unparen(sc.Fun).(*ast.SelectorExpr); ok && objOf(info, sel.X) == child {
-							okData = true
-						}
-					}
-				}
-				return true
-			})
-			if okData {
-				r.Ok(rule, f.Name(), con, w.Pos(c.Pos()), "per-call child; data set on it; handed to BlockWith")
-			} else {
-				r.Bad(rule, f.Name(), con+" data", w.Pos(c.Pos()), "the data map must be set on the child scope that is handed to BlockWith")
-			}
-		}
-		if nBW == 0 {
-			r.Bad(rule, f.Name(), "no BlockWith call", w.Pos(f.Decl.Pos()), "the stored/default block must be rendered through BlockWith with its own child scope")
-		}
-		// Set calls on the caller's helper context
-		for _, c := range callsIn(f.Decl.Body, false) {
-			cal := calleeOf(info, c)
-			sel, isSel := unparen(c.Fun).(*ast.SelectorExpr)
-			if cal == nil || !isSel || cal.Name() != "Set" || objOf(info, sel.X) != helpP {
-				continue
-			}
-			okKey := false
-			if be, ok := unparen(c.Args[0]).(*ast.BinaryExpr); ok && be.Op == token.ADD {
-				if s, ok := constString(info, be.X); ok && s == "contentFor:" {
-					okKey = true
-				}
-			}
-			if okKey && name == "ContentFor" {
-				r.Ok(rule, f.Name(), "registration "+short(w.Fset, c.Args[0]), w.Pos(c.Pos()), "the only write to the caller's scope")
-			} else {
-				r.Bad(rule, f.Name(), "Set on the caller's context "+short(w.Fset, c.Args[0]), w.Pos(c.Pos()), "content helpers must not bind names in the caller's scope (other than the contentFor registration)")
-			}
-		}
-	}
+	contentRulesSSA(r, "", "", "", rule)
 }
 
 func enclosingFuncBody(w *World, n ast.Node) *ast.BlockStmt {
